@@ -1,33 +1,41 @@
 import RsMatterVerif.Lemmas.Transport
+import RsMatterVerif.Lemmas.TxWire
+import RsMatterVerif.Lemmas.IdHist
 import RsMatterVerif.Model.TxGuard
 /-!
 # C15 — a nonce is never used for two different messages
 
-Theorems over `Model/Transport.lean`:
-1. send counters: on every history of operations on a session, a message that is not a
-   retransmission carries a counter strictly greater than every earlier one
-   (`new_counter_above_all_earlier`); two wire messages with the same counter ⇒ the later one is a
-   retransmission (`same_counter_is_retransmission`);
-2. a retransmission is identical in everything the transport decides: same counter, same
-   piggy-backed acknowledgement, for every interleaving with received messages that respect the
-   one-outstanding-message discipline (`retransmissions_identical`); the discipline is needed
-   (`ack_changes_without_discipline`);
-3. identifiers: the allocators never return an id that is live (`nextSessId_fresh`,
-   `nextExchId_fresh`), for every table state; responder exchanges are opened only when no live
-   exchange has that (id, role) (`exchUniq_postRecv`); hence (id, role) stays unique
-   among the live exchanges of a session under every receive, initiate and drop step
-   (`exchUniq_postRecv`, `initiate_keeps_uniq`, `exchUniq_removeExch`).
-
-4. payloads: a retransmission is produced by running the message builder again; since the repo fix
-   `C15-retransmission-rebuilt-differs` the transport refuses to send a rebuilt message whose digest
-   differs from the first transmission's (`Model/TxGuard.lean`): whatever the builder does, everything
-   that reaches the wire for one message carries one counter and one digest
-   (`guard_one_payload_per_counter`), an idempotent builder is never refused
-   (`guard_idempotent_never_refused`), a builder that changes its output ends the send loop with an
-   error before the changed message is sent (`guard_refuses_first_difference`).
-
-The model's counters are unbounded naturals; the Rust `u32` send counter starts below 2^28 and the
-correspondence holds while it stays below 2^32 (stated in `docs/C15.md`).
+Theorems over `Model/Transport.lean`, `Model/TxWire.lean`, `Model/TxGuard.lean`:
+1. send counters (whole histories of `Session::pre_send` / `post_recv` / slot operations, `runS`):
+   `new_counter_above_all_earlier`, and with the `u32` bound as an explicit hypothesis
+   (`start + number of operations ≤ 2^32`) `new_counter_above_all_earlier_u32`;
+   `counter_wraps_without_bound` (the hypothesis is needed: no roll-over handling in the code);
+   `same_counter_is_retransmission` concludes only the FLAG `ctr.is_some()` of `Session::pre_send`;
+1b. **one counter, one message** (`same_counter_same_message`): over the four call sites of
+   `Session::pre_send` (`Model/TxWire.lean`: `TxMessage::complete` with the retransmission guard,
+   the duplicate's acknowledgement WITHOUT exchange slot, `CloseSession`, the owed acknowledgement of a
+   dropped exchange without pending retransmission), for every history that respects the exchange
+   discipline at every receive and stays below `2^32` messages: two messages handed to the transport
+   with the same counter have the same exchange id, initiator flag, reliable flag, acknowledgement
+   field and content digest. `dupAck_through_exchange_breaks`: the statement is false for the call site
+   of the seeded defect (the acknowledgement written through the exchange's slot);
+2. one exchange's reliability layer: `retransmissions_identical`,
+   `original_and_retransmissions_identical` (the first transmission is part of the trace),
+   `ack_changes_without_discipline`, `retransmission_reuses_counter` (one step);
+3. the allocators, one call: `nextSessId_fresh`, `nextExchId_fresh` (+ `_range`), and with the
+   non-termination of the Rust loops explicit: `allocators_terminate` (within the capacities
+   `MAX_SESSIONS` / `MAX_EXCHANGES` the loops terminate and the model's total `allocLoop` computes their
+   answer; the `length < 65535` hypotheses follow from `Consts`), `nextExchIdD_fresh` (including the
+   lazy seeding from `next_exch_id = 0`);
+4. (id, role) of the live exchanges of a session, one step: `exchUniq_postRecv`, `exchUniq_addInit`,
+   `exchUniq_removeExch`, `initiate_keeps_uniq`;
+5. **along every history**: `sessIds_unique_always` (add / `get_next_sess_id` / `update` installing a
+   handed-out id / abandon / complete / remove / eviction, under `staleFree`: no handed-out id stays
+   un-installed for 65535 further candidates — `stale_id_is_handed_out_again` shows the hypothesis is
+   needed), `exchIds_unique_always` (initiate / receive / drop / accept / send / freed slot / session
+   added / removed, from any table within capacity, the never-used one included);
+6. payloads (`Model/TxGuard.lean`, one message's send loop): `guard_one_payload_per_counter`,
+   `guard_idempotent_never_refused`, `guard_refuses_first_difference`.
 -/
 namespace C15
 open Transport
@@ -164,8 +172,11 @@ theorem new_counter_above_all_earlier (s : Sess) (hinv : SlotsBelow s s.ctr) (op
     List.Pairwise (fun a b => b.retransmission = false → a.ctr < b.ctr) (runS s ops).2 :=
   (runS_facts ops s hinv).2.2
 
-/-- **Nonce uniqueness at the transport level**: two wire messages of a session with the same counter
-⇒ the later one is a retransmission. -/
+/-- Two outputs of `Session::pre_send` with the same counter ⇒ the later one went through a slot whose
+pending entry remembered that counter (`retransmission` is exactly the flag `ctr.is_some()` of
+`Session::pre_send`). This says NOTHING about the two messages being the same message — `runS`
+accepts `[(7,false,none),(7,true,some 99)]`, see the example below; that the later message IS the
+earlier one is `same_counter_same_message`, over the call sites of `pre_send` and the guard. -/
 theorem same_counter_is_retransmission (s : Sess) (hinv : SlotsBelow s s.ctr) (ops : List SOp) :
     List.Pairwise (fun a b => a.ctr = b.ctr → b.retransmission = true) (runS s ops).2 := by
   refine List.Pairwise.imp ?_ (new_counter_above_all_earlier s hinv ops)
@@ -182,6 +193,169 @@ example :
          .rx { ctr := 1, exch := 5, initiator := false, ack := some 7, reliable := true, newOk := true } 0,
          .tx (some 0) true none none]).2.map (fun o => (o.ctr, o.retransmission, o.ack)))
       = [(7, false, none), (7, true, none), (8, false, some 1)] := by decide
+
+/-- what `same_counter_is_retransmission` does not exclude: `Session::pre_send` itself hands the counter
+of a pending retransmission to ANY message written through that slot — here an unreliable message
+with another acknowledgement field (the shape of the seeded defect "the duplicate's stand-alone
+acknowledgement is written through the exchange slot"). -/
+example :
+    ((runS ({ uid := 0, ctr := 7 } : Sess)
+        [.open_ 5, .tx (some 0) true none none, .tx (some 0) false (some 99) none]).2.map
+          (fun o => (o.ctr, o.retransmission, o.ack))) = [(7, false, none), (7, true, some 99)] := by decide
+
+/-- the `u32` send counter (`Session::get_msg_ctr`: `msg_ctr += 1`, no roll-over handling): the
+model's natural-number counters ARE the `u32` counters as long as the session sends fewer messages
+than are left up to `2^32` — each operation consumes at most one counter -/
+theorem stepS_ctr_le (s : Sess) (op : SOp) : (stepS s op).1.ctr ≤ s.ctr + 1 := by
+  cases op with
+  | tx idx rel ha sai =>
+    have := TxWire.preSend_ctr_le s idx rel ha sai
+    simp only [stepS]
+    split <;> simp_all
+  | rx h now => simp only [stepS]; rw [(postRecv_facts s h now).2]; omega
+  | open_ id =>
+    simp only [stepS]
+    cases ha : s.addExch id .io with
+    | none => simp
+    | some p => obtain ⟨s', i⟩ := p; simp only; rw [(addExch_slot s s' id .io i ha).2.1]; omega
+  | close i => simp only [stepS]; rw [(removeExch_facts s i).2]; omega
+  | free i => simp [stepS]
+
+theorem runS_ctr_le (ops : List SOp) : ∀ (s : Sess), (runS s ops).1.ctr ≤ s.ctr + ops.length := by
+  induction ops with
+  | nil => intro s; simp [runS]
+  | cons op ops ih =>
+    intro s
+    have h1 := stepS_ctr_le s op
+    have h2 := ih (stepS s op).1
+    simp only [runS, List.length_cons]
+    omega
+
+/-- **Counters strictly increase, as `u32` values**: under the explicit hypothesis that the history
+does not exhaust the 32-bit counter (`start + number of operations ≤ 2^32`; the start is below
+`2^28`), every counter on the wire is below `2^32` — no wrap — and a message that is not a
+retransmission carries a `u32` counter strictly greater than every earlier one. Without the
+hypothesis the code wraps (release) or panics (debug): `counter_wraps_without_bound`. -/
+theorem new_counter_above_all_earlier_u32 (s : Sess) (hinv : SlotsBelow s s.ctr) (ops : List SOp)
+    (hwrap : s.ctr + ops.length ≤ 2 ^ 32) :
+    (∀ o ∈ (runS s ops).2, o.ctr < 2 ^ 32) ∧
+    List.Pairwise (fun a b => b.retransmission = false → a.ctr % 2 ^ 32 < b.ctr % 2 ^ 32) (runS s ops).2 := by
+  have hf := runS_facts ops s hinv
+  have hle := runS_ctr_le ops s
+  have hlt : ∀ o ∈ (runS s ops).2, o.ctr < 2 ^ 32 := fun o ho => by have := (hf.2.1 o ho).1; omega
+  refine ⟨hlt, ?_⟩
+  have hpw := hf.2.2
+  rw [List.pairwise_iff_forall_sublist] at hpw ⊢
+  intro a b hab hnew
+  have ha : a ∈ (runS s ops).2 := hab.subset (by simp)
+  have hb : b ∈ (runS s ops).2 := hab.subset (by simp)
+  rw [Nat.mod_eq_of_lt (hlt a ha), Nat.mod_eq_of_lt (hlt b hb)]
+  exact hpw hab hnew
+
+/-- the hypothesis is needed: the model's 2^32-th counter and counter 0 are the same `u32` -/
+theorem counter_wraps_without_bound :
+    let s : Sess := { uid := 0, ctr := 2 ^ 32 - 1 }
+    ((runS s [.tx none false none none, .tx none false none none]).2.map (fun o => o.ctr % 2 ^ 32)) = [2 ^ 32 - 1, 0] := by
+  decide
+
+/-! ## 1b. One counter, one message — over the call sites of `Session::pre_send`
+
+`Model/TxWire.lean`: every message a session hands to the transport, with what its header carries
+(counter, exchange id, initiator flag, reliable flag, acknowledgement field) and the digest of
+(protocol id, opcode, payload), produced by the four call sites of `Session::pre_send`:
+`TxMessage::complete` (+ the retransmission guard), the duplicate's stand-alone acknowledgement in
+`handle_rx_packet` (NO exchange slot), `CloseSession`, and the owed acknowledgement of a dropped
+exchange without pending retransmission in `handle_dropped_exchange`. -/
+
+open TxWire in
+/-- **One counter, one message.** For every history of operations on a session — sends through the
+`Exchange` API with ANY builder outputs (reliable or not, any digests, idempotent or not),
+acknowledgements of duplicates, close-session messages, sweeps of dropped exchanges, received
+messages, exchanges opened / dropped / freed — that starts with nothing pending, respects the
+exchange discipline at every receive (`TxWire.disciplined`) and does not exhaust the `u32` counter
+(`hwrap`): any two messages handed to the transport with the same `u32` counter are the SAME
+message: same exchange id and initiator flag, same reliable flag, same acknowledgement field, same
+content digest. (With the session key and the source node id the counter is the AEAD nonce: no
+nonce protects two different messages.) -/
+theorem same_counter_same_message (s : Sess) (hidle : ∀ j e, s.slot j = some e → e.mrp.retrans = none)
+    (ops : List Op) (hdisc : disciplined dupAckSlot { s := s } ops = true)
+    (hwrap : s.ctr + ops.length ≤ 2 ^ 32) :
+    List.Pairwise (fun a b => a.ctr % 2 ^ 32 = b.ctr % 2 ^ 32 → a = b) (run dupAckSlot { s := s } ops).2 ∧
+    ∀ w ∈ (run dupAckSlot { s := s } ops).2, w.ctr < 2 ^ 32 := by
+  have g := inv_run ops { s := s } [] (inv_init s hidle) hdisc
+  simp only [List.nil_append] at g
+  have hle := run_ctr_le ops { s := s }
+  have hlt : ∀ w ∈ (run dupAckSlot { s := s } ops).2, w.ctr < 2 ^ 32 := fun w hw => by
+    have := g.wlt w hw
+    have h0 : ({ s := s } : St).s.ctr = s.ctr := rfl
+    omega
+  refine ⟨?_, hlt⟩
+  have hpw := g.pw
+  rw [List.pairwise_iff_forall_sublist] at hpw ⊢
+  intro a b hab heq
+  have ha : a ∈ (run dupAckSlot { s := s } ops).2 := hab.subset (by simp)
+  have hb : b ∈ (run dupAckSlot { s := s } ops).2 := hab.subset (by simp)
+  rw [Nat.mod_eq_of_lt (hlt a ha), Nat.mod_eq_of_lt (hlt b hb)] at heq
+  exact hpw hab heq
+
+/-- non-vacuity (all hypotheses hold) on a realistic history: request sent (counter 7), lost, the
+peer's retransmitted earlier message arrives as a duplicate and is acknowledged outside the exchange
+(counter 8), our request is retransmitted (7 again, identical), a non-idempotent rebuild is refused
+(nothing sent), the response arrives with the acknowledgement, the next request takes counter 9. -/
+example :
+    let s : Sess := { uid := 0, ctr := 7, mode := .case }
+    let dup : RxHdr := { ctr := 3, exch := 5, initiator := false, ack := none, reliable := true, newOk := true }
+    let rsp : RxHdr := { ctr := 4, exch := 5, initiator := false, ack := some 7, reliable := true, newOk := true }
+    let ops : List TxWire.Op := [.open_ 5, .complete 0 true 900 none, .dupAck dup none, .complete 0 true 900 none,
+      .complete 0 true 901 none, .rx rsp 0, .complete 0 true 902 none]
+    TxWire.disciplined TxWire.dupAckSlot { s := s } ops = true ∧
+    ((TxWire.run TxWire.dupAckSlot { s := s } ops).2.map (fun w => (w.ctr, w.exch, w.reliable, w.ack, w.digest))) =
+      [(7, 5, true, none, 900), (8, 5, false, some 3, 0), (7, 5, true, none, 900), (9, 5, true, some 4, 902)] := by
+  decide
+
+/-- the duplicate's acknowledgement written THROUGH the exchange the duplicate belongs to (the seeded
+defect: `write_packet(packet, Some(session), Some(exch_index), …)` in `handle_rx_packet`) -/
+def dupAckThroughExchange : Sess → RxHdr → Option Nat := fun s h => s.getExchForRx h
+
+/-- **The call site matters**: with the exchange slot passed to `write_packet`, the stand-alone
+acknowledgement of a duplicate goes out under the counter of the request that exchange is still
+waiting for — one counter, two different messages. `same_counter_same_message` is a theorem about
+the call site the code has (`TxWire.dupAckSlot = none`), not about `Session::pre_send` alone. -/
+theorem dupAck_through_exchange_breaks :
+    let s : Sess := { uid := 0, ctr := 7, mode := .case }
+    let dup : RxHdr := { ctr := 3, exch := 5, initiator := false, ack := none, reliable := true, newOk := true }
+    let ops : List TxWire.Op := [.open_ 5, .complete 0 true 900 none, .dupAck dup none]
+    TxWire.disciplined dupAckThroughExchange { s := s } ops = true ∧
+    ((TxWire.run dupAckThroughExchange { s := s } ops).2.map (fun w => (w.ctr, w.exch, w.reliable, w.ack, w.digest))) =
+      [(7, 5, true, none, 900), (7, 5, false, some 3, 0)] ∧
+    ((TxWire.run TxWire.dupAckSlot { s := s } ops).2.map (fun w => (w.ctr, w.exch, w.reliable, w.ack, w.digest))) =
+      [(7, 5, true, none, 900), (8, 5, false, some 3, 0)] := by
+  intro s dup ops
+  refine ⟨by decide, by decide, by decide⟩
+
+/-- **The guard matters, including the reliable flag** (repo fix
+`C15-retransmission-reliable-flag-differs`): a rebuilt message with the same content but
+`reliable = false` is refused; so is a stand-alone acknowledgement through `Exchange::acknowledge`
+while the exchange waits for the acknowledgement of its own message. -/
+example :
+    let s : Sess := { uid := 0, ctr := 7, mode := .case }
+    ((TxWire.run TxWire.dupAckSlot { s := s }
+        [.open_ 5, .complete 0 true 900 none, .complete 0 false 900 none, .complete 0 false TxWire.ackDigest none,
+         .complete 0 true 900 none]).2.map (fun w => (w.ctr, w.reliable, w.digest))) =
+      [(7, true, 900), (7, true, 900)] := by
+  decide
+
+/-- the discipline hypothesis is needed here as well: a reliable message without acknowledgement on an
+exchange that waits for one replaces the owed acknowledgement; the retransmission then differs in
+its acknowledgement field (same as `ack_changes_without_discipline` on the bare reliability layer) -/
+example :
+    let s : Sess := { uid := 0, ctr := 7, mode := .case }
+    let m1 : RxHdr := { ctr := 3, exch := 5, initiator := true, ack := none, reliable := true, newOk := true }
+    let m2 : RxHdr := { ctr := 4, exch := 5, initiator := true, ack := none, reliable := true, newOk := true }
+    let ops : List TxWire.Op := [.rx m1 0, .complete 0 true 900 none, .rx m2 0, .complete 0 true 900 none]
+    TxWire.disciplined TxWire.dupAckSlot { s := s } ops = false ∧
+    ((TxWire.run TxWire.dupAckSlot { s := s } ops).2.map (fun w => (w.ctr, w.ack))) = [(7, some 3), (7, some 4)] := by
+  decide
 
 /-! ## 2. A retransmission is identical to the original -/
 
@@ -302,6 +476,26 @@ theorem retransmissions_identical (m : Mrp) (r : Retrans) (hdrAck sai : Option N
     (Or.inl rfl) hdis p hp
   exact this
 
+/-- … with the ORIGINAL transmission in the trace: the first `pre_send` of a reliable message on an
+exchange with nothing pending succeeds and writes `(c, a)`; every later retransmission — under every
+disciplined interleaving with received messages — writes exactly `(c, a)` again. -/
+theorem original_and_retransmissions_identical (m : Mrp) (c : Nat) (hdrAck sai : Option Nat) (evs : List MEv)
+    (hm : m.retrans = none) (hdis : ∀ e ∈ evs, e.disciplined = true) :
+    (m.preSend c true hdrAck sai).2.2 = none ∧
+    ∀ p ∈ runM hdrAck sai (m.preSend c true hdrAck sai).1 evs, p = (c, (m.preSend c true hdrAck sai).2.1) := by
+  have horig := preSend_retrans_origin m c true hdrAck sai
+  simp only at horig
+  have hok := horig.2.1 hm
+  refine ⟨hok, ?_⟩
+  have hrt : (m.preSend c true hdrAck sai).1.retrans = some (Retrans.new sai c) := by
+    unfold Mrp.preSend; simp [hm]
+  intro p hp
+  have := retransmissions_identical _ _ hdrAck sai evs hrt hdis p hp
+  rw [this, preSend_outAck]
+  unfold outAckOf
+  rw [preSend_ackCtr m c true hdrAck sai hok]
+  rfl
+
 /-- non-vacuity of the hypotheses, and the retransmission really happens -/
 example : runM none none { retrans := some { base := 300, ctr := 9, count := 0 }, ack := some { ctr := 4, acked := true } }
     [.retransmit, .recv 5 (some 3) true 0, .retransmit, .recv 6 none false 0, .retransmit]
@@ -352,7 +546,8 @@ theorem retransmission_reuses_counter (s : Sess) (i : Nat) (e : Exch) (r : Retra
 /-! ## 3. Identifiers -/
 
 /-- `get_next_sess_id` never returns the local id of a session in the table — for every table
-with fewer than 65535 sessions (the capacity is `Consts.maxSessions`). -/
+with fewer than 65535 sessions (the capacity is `Consts.maxSessions`: `Transport.cap_lengths` derives
+the hypothesis from `Cap`; `allocators_terminate`: within the capacity the Rust loop terminates). ONE call. -/
 theorem nextSessId_fresh (t : Table) (h1 : 1 ≤ t.nextSid) (h2 : t.nextSid ≤ 65535)
     (hlen : t.sessions.length < 65535) : t.nextSessId.2 ∉ t.liveSessIds := by
   unfold Table.nextSessId
@@ -365,7 +560,9 @@ theorem nextSessId_range (t : Table) :
   exact allocLoop_next_range _ _ _
 
 /-- `get_next_exch_id` (after the repair) never returns the id of a live initiator-role exchange of
-any session — for every table with fewer than 65535 such exchanges. -/
+any session — for every table with fewer than 65535 such exchanges, allocator already seeded
+(`1 ≤ nextExch`; the never-used table with `nextExch = 0` goes through the seeding branch:
+`nextExchIdD_fresh`). ONE call. -/
 theorem nextExchId_fresh (t : Table) (h1 : 1 ≤ t.nextExch) (h2 : t.nextExch ≤ 65535)
     (hlen : t.liveInitExchIds.length < 65535) : t.nextExchId.2 ∉ t.liveInitExchIds := by
   unfold Table.nextExchId
@@ -536,7 +733,407 @@ example :
     let t : Table := { nextExch := 0x1234, sessions := [s] }
     t.nextExchId.2 = 0x1235 := by decide
 
-/-! ## 4. The payload of a retransmission (`TxMessage::complete`, repo fix `C15-retransmission-rebuilt-differs`) -/
+/-! ## 5. Uniqueness of the identifiers along every history -/
+
+/-- **The allocator loops terminate** (the Rust `loop { … }` has no bound): on every table within the
+capacities `MAX_SESSIONS` / `MAX_EXCHANGES` the explicit-divergence versions of the two allocators
+answer — never `none` — and answer what the executable model's total `allocLoop` computes. The
+`length < 65535` hypotheses of the freshness theorems follow from `Cap` (`Transport.cap_lengths`,
+`maxSessions · maxExchanges < 65535`). -/
+theorem allocators_terminate (t : Table) (hcap : Cap t) (h1 : 1 ≤ t.nextSid) (h2 : t.nextSid ≤ 65535)
+    (h3 : t.nextExch ≤ 65535) (cand : Nat) :
+    t.nextSessIdD = some t.nextSessId ∧ t.nextExchIdD cand = some (t.seedExch cand).nextExchId := by
+  have hl := cap_lengths t hcap
+  constructor
+  · unfold Table.nextSessIdD Table.nextSessId
+    have ht := allocLoopD_terminates t.liveSessIds t.nextSid h1 h2 hl.1
+    cases h : allocLoopD t.liveSessIds 65536 t.nextSid with
+    | none => rw [h] at ht; cases ht
+    | some r => rw [allocLoopD_eq _ _ _ r h]; rfl
+  · have hr := seedExch_range t cand h3
+    have hl2 : (t.seedExch cand).liveInitExchIds.length < 65535 := by
+      unfold Table.liveInitExchIds
+      rw [seedExch_sessions]
+      exact hl.2
+    unfold Table.nextExchIdD Table.nextExchId
+    simp only
+    have ht := allocLoopD_terminates _ _ hr.1 hr.2 hl2
+    cases h : allocLoopD (t.seedExch cand).liveInitExchIds 65536 (t.seedExch cand).nextExch with
+    | none => rw [h] at ht; cases ht
+    | some r => rw [allocLoopD_eq _ _ _ r h]; rfl
+
+/-- the default (empty, never used) table satisfies the hypotheses: `next_exch_id = 0` is the
+"not seeded" state, handled by the seeding branch (`Table.seedExch`), and the id `get_next_exch_id`
+then answers is never 0 -/
+example : Cap ({} : Table) ∧ 1 ≤ ({} : Table).nextSid ∧ ({} : Table).nextExch ≤ 65535 ∧
+    (({} : Table).nextExchIdD 0).map (·.2) = some 1 ∧ (({} : Table).nextExchIdD 0x1234).map (·.2) = some 0x1234 := by
+  refine ⟨⟨by decide, fun s hs => by cases hs⟩, by decide, by decide, by decide, by decide⟩
+
+/-- the exchange-id allocator including the seeding branch never answers a live initiator id, never 0 -/
+theorem nextExchIdD_fresh (t t' : Table) (cand x : Nat) (h3 : t.nextExch ≤ 65535)
+    (h : t.nextExchIdD cand = some (t', x)) : x ∉ t.liveInitExchIds ∧ 1 ≤ x ∧ x ≤ 65535 ∧ 1 ≤ t'.nextExch ∧ t'.nextExch ≤ 65535 := by
+  unfold Table.nextExchIdD at h
+  simp only [Option.map_eq_some_iff] at h
+  obtain ⟨r, hr, heq⟩ := h
+  obtain ⟨x', nx⟩ := r
+  simp only [Prod.mk.injEq] at heq
+  obtain ⟨ht', hx⟩ := heq
+  subst hx
+  have hrange := seedExch_range t cand h3
+  obtain ⟨k, _, hxk, hnk, hfresh, _⟩ := allocLoopD_spec _ _ _ _ _ hr
+  have hlive : (t.seedExch cand).liveInitExchIds = t.liveInitExchIds := by
+    unfold Table.liveInitExchIds; rw [seedExch_sessions]
+  rw [hlive] at hfresh
+  have h1 := bumpIter_range k _ hrange.1 hrange.2
+  have h2 := bumpIter_range (k + 1) _ hrange.1 hrange.2
+  rw [← ht']
+  exact ⟨hfresh, by omega, by omega, by simp only; omega, by simp only; omega⟩
+
+open C15 in
+/-- **Local session ids are unique among the live sessions — along every history.** Start from a
+table within capacity whose secure sessions have pairwise distinct local ids (e.g. the empty
+table); run ANY history of `Sessions::add` / `reserve_now`, `get_next_sess_id` (start of a
+handshake), `ReservedSession::update` installing an id that `get_next_sess_id` handed out (not an
+arbitrary one), handshakes abandoned, `complete`, `get`, `remove`, eviction. If no handed-out id
+stays un-installed while the allocator consumes 65535 further candidates (`staleFree` — the
+allocator looks only at INSTALLED ids; without this an id handed to a stalled handshake is handed
+out again after a full round: `stale_id_is_handed_out_again`), then in the final table any two
+sessions with the same local id have id 0 (unsecured / not installed yet), and the ids handed out and
+not yet installed are distinct from each other and from every installed id. -/
+theorem sessIds_unique_always (t0 : Table) (hcap : t0.sessions.length ≤ Consts.maxSessions)
+    (h1 : 1 ≤ t0.nextSid) (h2 : t0.nextSid ≤ 65535) (hu : SessUniq t0.sessions)
+    (ops : List SidOp) (hs : staleFree { t := t0 } ops) :
+    let st := runSid { t := t0 } ops
+    st.t.sessions.Pairwise (fun a b => a.localSid = b.localSid → a.localSid = 0) ∧
+    st.out.Pairwise (fun p q => p.1 ≠ q.1) ∧ ∀ p ∈ st.out, ∀ s ∈ st.t.sessions, s.localSid ≠ p.1 := by
+  have g0 : SidInv t0.nextSid { t := t0 } :=
+    { c0r := ⟨h1, h2⟩, pos := rfl, outPos := fun p hp => (by cases hp), cap := hcap, uniq := hu,
+      outFresh := fun p hp => (by cases hp), outDistinct := List.Pairwise.nil }
+  have g := sidInv_run ops _ g0 hs
+  refine ⟨?_, g.outDistinct, g.outFresh⟩
+  rw [List.pairwise_iff_getElem]
+  intro i j hi hj hij heq
+  apply Classical.byContradiction
+  intro hne
+  have := g.uniq i j _ _ (List.getElem?_eq_getElem hi) (List.getElem?_eq_getElem hj) heq hne
+  omega
+
+open C15 in
+/-- non-vacuity: two interleaved handshakes on the empty table — both allocate before either
+installs; ids 1 and 2; a removal and a third handshake re-using nothing live -/
+example :
+    let ops : List SidOp := [.add 5 true 0 0, .add 6 true 0 0, .alloc, .alloc, .install 1 0 77 .case 0,
+      .install 0 0 78 .pase 0, .remove 1, .add 7 true 0 0, .alloc, .install 2 0 79 .case 0]
+    staleFree {} ops ∧ (runSid {} ops).t.sessions.map (fun s => (s.uid, s.localSid)) = [(0, 2), (2, 3)] := by
+  intro ops
+  refine ⟨?_, by decide⟩
+  simp only [ops, staleFree, NoStale]
+  decide
+
+open C15 in
+/-- **The hypothesis is needed**: `get_next_sess_id` sees only installed ids. Id 1 is handed to a
+handshake that stalls; the allocator is brought round (here by positioning it; in the code by 65535
+further allocations) and hands out 1 again; both handshakes install it: two live sessions with local
+id 1. -/
+theorem stale_id_is_handed_out_again :
+    let st : SidSt := { t := { nextSid := 1, sessions := [{ uid := 0, ctr := 0, reserved := true }, { uid := 1, ctr := 0, reserved := true }] },
+                        tick := 65535, out := [(1, 0)] }
+    let st' := runSid st [.alloc, .install 0 0 7 .case 0, .install 1 0 8 .case 0]
+    ¬ NoStale (stepSid st .alloc) ∧ st'.t.sessions.map (·.localSid) = [1, 1] := by
+  intro st st'
+  refine ⟨?_, by decide⟩
+  simp only [NoStale, st]
+  decide
+
+/-- operations on the session table that reach the exchange slots of a session -/
+inductive XOp
+  /-- `Exchange::initiate_for_session` (`cand`: the random `u16` of the allocator's lazy seeding) -/
+  | initiate (uid now cand : Nat)
+  /-- a message received on session `uid`: `Session::post_recv` (opens a responder exchange for a new id) -/
+  | recv (uid : Nat) (h : RxHdr) (now : Nat)
+  /-- `Exchange::drop` → `remove_exch` -/
+  | drop (uid i now : Nat)
+  /-- `accept_if`: AcceptPending → Owned -/
+  | accept (uid i now : Nat)
+  /-- `Session::pre_send` -/
+  | send (uid : Nat) (idx : Option Nat) (rel : Bool) (ha sai : Option Nat) (now : Nat)
+  /-- `handle_dropped_exchange` frees a slot -/
+  | freeSlot (uid i now : Nat)
+  | addSess (ctr : Nat) (rsv : Bool) (now port : Nat)
+  | rmSess (uid : Nat)
+
+/-- look the session up (`Sessions::get`), change it, write it back -/
+def withSessT (t : Table) (uid now : Nat) (f : Sess → Sess) : Table :=
+  match t.get uid now with
+  | (t1, none) => t1
+  | (t1, some s) => t1.setSess (f s)
+
+def stepX (t : Table) : XOp → Table
+  | .initiate uid now cand => (t.initiateS uid now cand).1
+  | .recv uid h now => withSessT t uid now (fun s => (s.postRecv h now).1)
+  | .drop uid i now => (t.dropExchange uid i now).1
+  | .accept uid i now => (t.accept uid i now).1
+  | .send uid idx rel ha sai now => withSessT t uid now (fun s => (s.preSend idx rel ha sai).1)
+  | .freeSlot uid i now => withSessT t uid now (fun s => { s with exchs := s.exchs.set i none })
+  | .addSess ctr rsv now port => (t.add ctr rsv now port).1
+  | .rmSess uid => (t.remove uid).1
+
+def runX : Table → List XOp → Table
+  | t, [] => t
+  | t, op :: ops => runX (stepX t op) ops
+
+/-- the table invariant: allocator position in the `u16` range, capacities, (id, role) unique per session -/
+structure XInv (t : Table) : Prop where
+  range : t.nextExch ≤ 65535
+  cap : Cap t
+  uniq : ∀ s ∈ t.sessions, ExchUniq s
+
+theorem exchUniq_touch (s : Sess) (now : Nat) (hu : ExchUniq s) : ExchUniq { s with lastUse := now } :=
+  fun i j e f hi hj => hu i j e f hi hj
+
+theorem xinv_get {t : Table} (g : XInv t) (uid now : Nat) : XInv (t.get uid now).1 := by
+  rcases get_cases t uid now with h | ⟨i, s, hs, hu, hf, h⟩
+  · rw [h]; exact g
+  · rw [h]
+    have hmem : s ∈ t.sessions := List.mem_iff_getElem?.2 ⟨i, hs⟩
+    refine { range := g.range, cap := ⟨by simpa using g.cap.1, ?_⟩, uniq := ?_ }
+    · intro x hx
+      rcases List.mem_or_eq_of_mem_set hx with h1 | h1
+      · exact g.cap.2 x h1
+      · subst h1; exact g.cap.2 s hmem
+    · intro x hx
+      rcases List.mem_or_eq_of_mem_set hx with h1 | h1
+      · exact g.uniq x h1
+      · subst h1; exact exchUniq_touch s now (g.uniq s hmem)
+
+/-- the generic step: a session-level operation that keeps uid, capacity and (id, role) uniqueness -/
+theorem xinv_withSess {t : Table} (g : XInv t) (uid now : Nat) (f : Sess → Sess)
+    (huid : ∀ s, (f s).uid = s.uid)
+    (hf : ∀ s, ExchUniq s → s.exchs.length ≤ Consts.maxExchanges →
+      ExchUniq (f s) ∧ (f s).exchs.length ≤ Consts.maxExchanges) : XInv (withSessT t uid now f) := by
+  unfold withSessT
+  rcases get_cases t uid now with h | ⟨i, s, hs, hu, hfi, h⟩
+  · rw [h]; exact g
+  · rw [h]
+    simp only
+    rw [setSess_after_get t i ({ s with lastUse := now }) (f { s with lastUse := now }) uid hfi hu
+      (by rw [huid]; exact hu)]
+    have hmem : s ∈ t.sessions := List.mem_iff_getElem?.2 ⟨i, hs⟩
+    have hfs := hf { s with lastUse := now } (exchUniq_touch s now (g.uniq s hmem)) (g.cap.2 s hmem)
+    refine { range := g.range, cap := ⟨by simpa using g.cap.1, ?_⟩, uniq := ?_ }
+    · intro x hx
+      rcases List.mem_or_eq_of_mem_set hx with h1 | h1
+      · exact g.cap.2 x h1
+      · subst h1; exact hfs.2
+    · intro x hx
+      rcases List.mem_or_eq_of_mem_set hx with h1 | h1
+      · exact g.uniq x h1
+      · subst h1; exact hfs.1
+
+theorem preSend_keys (s : Sess) (idx : Option Nat) (rel : Bool) (ha sai : Option Nat) (k : Nat) (e' : Exch)
+    (hk : (s.preSend idx rel ha sai).1.slot k = some e') :
+    ∃ e, s.slot k = some e ∧ e.id = e'.id ∧ e.role.isResponder = e'.role.isResponder := by
+  cases idx with
+  | none => exact ⟨e', hk, rfl, rfl⟩
+  | some i =>
+    cases hs : s.slot i with
+    | none =>
+      have : (s.preSend (some i) rel ha sai).1 = s := by simp [Sess.preSend, hs]
+      rw [this] at hk
+      exact ⟨e', hk, rfl, rfl⟩
+    | some e =>
+      rw [(TxWire.preSend_some_spec s i e rel ha sai hs).1 k] at hk
+      split at hk
+      · rename_i hik
+        subst hik
+        cases hk
+        exact ⟨e, hs, rfl, rfl⟩
+      · exact ⟨e', hk, rfl, rfl⟩
+
+theorem xinv_step {t : Table} (g : XInv t) (op : XOp) : XInv (stepX t op) := by
+  cases op with
+  | initiate uid now cand =>
+    simp only [stepX]
+    unfold Table.initiateS
+    have g1 := xinv_get g uid now
+    rcases get_cases t uid now with h | ⟨i, s, hs, hu, hfi, h⟩
+    · rw [h]; exact g
+    · rw [h] at g1 ⊢
+      simp only at g1 ⊢
+      generalize hs1 : ({ s with lastUse := now } : Sess) = s1 at g1 ⊢
+      have hs1uid : s1.uid = uid := by rw [← hs1]; exact hu
+      generalize ht1 : ({ t with sessions := t.sessions.set i s1 } : Table) = t1 at g1 ⊢
+      have ht1s : t1.sessions = t.sessions.set i s1 := by rw [← ht1]
+      have hilt : i < t.sessions.length := (List.getElem?_eq_some_iff.1 hs).1
+      have hmem1 : s1 ∈ t1.sessions := by rw [ht1s]; exact List.mem_set hilt s1
+      split
+      · exact g1
+      · -- the allocator (seeded if it never was) answers an id no live initiator exchange of the table has
+        have hrange := seedExch_range t1 cand g1.range
+        have hsess : (t1.seedExch cand).sessions = t1.sessions := seedExch_sessions t1 cand
+        have hlen : (t1.seedExch cand).liveInitExchIds.length < 65535 := by
+          have := (cap_lengths t1 g1.cap).2
+          unfold Table.liveInitExchIds at this ⊢
+          rw [hsess]; exact this
+        have hfresh := nextExchId_fresh (t1.seedExch cand) hrange.1 hrange.2 hlen
+        have hnr := nextExchId_range (t1.seedExch cand)
+        have hns : (t1.seedExch cand).nextExchId.1.sessions = t1.sessions := hsess
+        cases ha : s1.addExch (t1.seedExch cand).nextExchId.2 .io with
+        | none =>
+          simp only
+          exact { range := hnr.2, cap := by unfold Cap; rw [hns]; exact g1.cap,
+                  uniq := by rw [hns]; exact g1.uniq }
+        | some p =>
+          obtain ⟨s2, i2⟩ := p
+          simp only
+          have hul := addExch_uid_len s1 s2 _ .io i2 ha
+          have hu2 : ExchUniq s2 := exchUniq_addInit s1 s2 _ i2 (g1.uniq s1 hmem1)
+            (fun hin => hfresh (by
+              unfold Table.liveInitExchIds
+              rw [hsess]
+              exact List.mem_flatMap.2 ⟨s1, hmem1, hin⟩)) ha
+          have hss : ((t1.seedExch cand).nextExchId.1.setSess s2).sessions = t.sessions.set i s2 :=
+            setSess_sessions_of _ t.sessions i s1 s2 uid (by rw [hns, ht1s]) hfi hs1uid (by rw [hul.1]; exact hs1uid)
+          refine { range := by rw [setSess_nextExch]; exact hnr.2, cap := ?_, uniq := ?_ }
+          · unfold Cap
+            rw [hss]
+            refine ⟨by simpa using g.cap.1, ?_⟩
+            intro x hx
+            rcases List.mem_or_eq_of_mem_set hx with h1 | h1
+            · exact g.cap.2 x h1
+            · subst h1; exact hul.2 (g1.cap.2 s1 hmem1)
+          · rw [hss]
+            intro x hx
+            rcases List.mem_or_eq_of_mem_set hx with h1 | h1
+            · exact g.uniq x h1
+            · subst h1; exact hu2
+  | recv uid h now =>
+    exact xinv_withSess g uid now _ (fun s => (postRecv_uid_len s h now).1)
+      (fun s hu hl => ⟨exchUniq_postRecv s h now hu, (postRecv_uid_len s h now).2 hl⟩)
+  | drop uid i now =>
+    have : (t.dropExchange uid i now).1 = withSessT t uid now (fun s => (s.removeExch i).1) := by
+      unfold Table.dropExchange withSessT
+      generalize t.get uid now = r
+      obtain ⟨t1, so⟩ := r
+      cases so <;> rfl
+    simp only [stepX]
+    rw [this]
+    exact xinv_withSess g uid now _ (fun s => (removeExch_uid_len s i).1)
+      (fun s hu hl => ⟨exchUniq_removeExch s i hu, by rw [(removeExch_uid_len s i).2]; exact hl⟩)
+  | accept uid i now =>
+    let f : Sess → Sess := fun s => match s.slot i with
+      | some e => if e.role = .rp then { s with exchs := s.exchs.set i (some { e with role := .ro }) } else s
+      | none => s
+    have hget := xinv_get g uid now
+    simp only [stepX]
+    unfold Table.accept
+    rcases get_cases t uid now with h | ⟨j, s, hs, hu, hfi, h⟩
+    · rw [h]; exact g
+    · rw [h] at hget ⊢
+      simp only at hget ⊢
+      split
+      · rename_i e he
+        split
+        · rename_i hrp
+          have hw := xinv_withSess g uid now f
+            (fun s => by
+              simp only [f]
+              split
+              · split <;> rfl
+              · rfl)
+            (fun s hu hl => by
+              simp only [f]
+              split
+              · rename_i e0 he0
+                split
+                · rename_i hrp0
+                  refine ⟨exchUniq_of_keys s _ hu ?_, by simpa using hl⟩
+                  intro k e' hk
+                  rw [slot_set] at hk
+                  split at hk
+                  · rename_i hik
+                    subst hik
+                    split at hk
+                    · cases hk
+                      exact ⟨e0, he0, rfl, by rw [hrp0]; rfl⟩
+                    · cases hk
+                  · exact ⟨e', hk, rfl, rfl⟩
+                · exact ⟨hu, hl⟩
+              · exact ⟨hu, hl⟩)
+          unfold withSessT at hw
+          rw [h] at hw
+          simp only [f, he, hrp, ↓reduceIte] at hw
+          exact hw
+        · exact hget
+      · exact hget
+  | send uid idx rel ha sai now =>
+    exact xinv_withSess g uid now _ (fun s => (preSend_uid_len s idx rel ha sai).1)
+      (fun s hu hl => ⟨exchUniq_of_keys s _ hu (preSend_keys s idx rel ha sai),
+        by rw [(preSend_uid_len s idx rel ha sai).2]; exact hl⟩)
+  | freeSlot uid i now =>
+    refine xinv_withSess g uid now _ (fun s => rfl) (fun s hu hl => ⟨exchUniq_of_keys s _ hu ?_, by simpa using hl⟩)
+    intro k e' hk
+    obtain ⟨hk', _⟩ := TxWire.slot_freed s i k e' hk
+    exact ⟨e', hk', rfl, rfl⟩
+  | addSess ctr rsv now port =>
+    simp only [stepX]
+    unfold Table.add
+    simp only
+    split
+    · exact { range := g.range, cap := g.cap, uniq := g.uniq }
+    · rename_i hcap
+      simp only [ge_iff_le, Nat.not_le] at hcap
+      refine { range := g.range, cap := ⟨?_, ?_⟩, uniq := ?_ }
+      · simp only [List.length_append, List.length_cons, List.length_nil]; omega
+      · intro x hx
+        rcases List.mem_append.1 hx with h1 | h1
+        · exact g.cap.2 x h1
+        · simp only [List.mem_singleton] at h1; subst h1; exact Nat.zero_le _
+      · intro x hx
+        rcases List.mem_append.1 hx with h1 | h1
+        · exact g.uniq x h1
+        · simp only [List.mem_singleton] at h1
+          subst h1
+          intro a b e f hi
+          simp [Sess.slot] at hi
+  | rmSess uid =>
+    simp only [stepX]
+    unfold Table.remove
+    split
+    · refine { range := g.range, cap := ⟨Nat.le_trans (swapRemove_length_le _ _) g.cap.1, ?_⟩, uniq := ?_ }
+      · intro x hx; exact g.cap.2 x (swapRemove_mem _ _ x hx)
+      · intro x hx; exact g.uniq x (swapRemove_mem _ _ x hx)
+    · exact g
+
+/-- **Exchange ids are unique among the live exchanges of their role — along every history.** Start
+from a table within capacity on which every session has (id, role) unique among its live exchanges
+(e.g. the empty, never used table: the allocator's `next_exch_id = 0` "not seeded" state is
+handled by the seeding branch); run ANY history of `initiate_for_session` (id from
+`get_next_exch_id`), received messages (open responder exchanges), exchange drops, accepts,
+sends, freed slots, sessions added and removed: on every session of the final table no two live
+exchanges share (exchange id, role). -/
+theorem exchIds_unique_always (t0 : Table) (hcap : Cap t0) (hr : t0.nextExch ≤ 65535)
+    (hu : ∀ s ∈ t0.sessions, ExchUniq s) (ops : List XOp) :
+    ∀ s ∈ (runX t0 ops).sessions, ExchUniq s := by
+  have key : ∀ (ops : List XOp) (t : Table), XInv t → XInv (runX t ops) := by
+    intro ops
+    induction ops with
+    | nil => intro t g; exact g
+    | cons op ops ih => intro t g; exact ih _ (xinv_step g op)
+  exact (key ops t0 { range := hr, cap := hcap, uniq := hu }).uniq
+
+/-- non-vacuity, from the default table (allocator not seeded, seed drawn = 0x1234): two initiated
+exchanges, a received message opening a responder exchange with the SAME id 0x1234 (other role), a
+drop + freed slot, another initiate -/
+example :
+    let hdr : RxHdr := { ctr := 9, exch := 0x1234, initiator := true, ack := none, reliable := true, newOk := true }
+    let t := runX {} [.addSess 5 false 0 0, .initiate 0 1 0x1234, .initiate 0 2 0, .recv 0 hdr 3, .drop 0 0 4,
+      .freeSlot 0 0 5, .initiate 0 6 0]
+    t.sessions.map (fun s => s.exchs.map (fun o => o.map (fun e => (e.id, e.role.isResponder)))) =
+      [[none, some (0x1235, false), some (0x1234, true), some (0x1236, false)]] := by
+  decide
+
+/-! ## 6. The payload of a retransmission (`TxMessage::complete`, repo fix `C15-retransmission-rebuilt-differs`) -/
 
 open TxGuard in
 theorem sendLoop_some (c f : Nat) (ds : List Nat) :
